@@ -632,6 +632,19 @@ class Sim:
         set_day(self.day)
         random.seed(self.seed)
         _install_dirent_order(self.dirent, self.seed)
+        # zorg keeps one class-level TemporaryDirectory per interpreter for template
+        # builds; forked children would all share the parent's, so each simulated
+        # process gets its own (as every real zorg process does)
+        try:
+            import types as _types
+
+            import zorg.service.templates as _tm
+
+            tdir = os.path.join(self.root, f"tmpl-tmp.{self.nproc}")
+            os.makedirs(tdir, exist_ok=True)
+            _tm.ZorgTemplateManager.tmp_dir = _types.SimpleNamespace(name=tdir)  # type: ignore[assignment]
+        except ImportError:
+            pass
         tap = Tap(self.zdir, fx_fd, fault)
         _install_tap(tap)
         from . import ops
